@@ -514,25 +514,34 @@ func (h *harness) rdfaWriter(n int) {
 	var cases []rdfaCase
 	var lines []string
 	for i := 0; i < n; i++ {
-		g := &gen{r: h.r, base: vh.Pick(h.r, bases), rel: map[string]string{}}
+		g := &gen{r: h.r, base: vh.Pick(h.r, bases), rel: map[string]string{}, tok: h.r.Chance(20)}
 		gr := g.rdfaGraph()
-		if g.base != "" && h.r.Chance(15) {
-			// a vocabulary declaration: the graph then contains the rdfa:usesVocabulary triple
-			v := vh.Pick(h.r, vocabs)
+		if g.base != "" && h.r.Chance(20) {
+			// a vocabulary declaration: the graph then contains the rdfa:usesVocabulary triple, followed by a triple whose
+			// predicate can be spelt as a term of that vocabulary. With the host default vocabulary (the decoder's special
+			// value) both predefined terms (license, role) and plain ones (up, chapter) occur.
+			v := pickVocab(h.r)
 			k := h.r.Intn(len(gr) + 1)
-			var p string
+			var ps []string
 			for _, c := range predIRIs {
 				if strings.HasPrefix(c, v) {
-					p = c
+					ps = append(ps, c)
 				}
 			}
+			if v == hostVocab {
+				ps = append(ps, hostVocabPlain...)
+				ps = append(ps, hostVocabPlain...)
+			}
 			extra := []Triple{{I(dropFragment(g.base)), I(usesVocab), I(v)}}
-			if p != "" {
-				extra = append(extra, Triple{g.resource(true), I(p), g.literal("sl")})
+			if len(ps) > 0 {
+				extra = append(extra, Triple{g.resource(true), I(vh.Pick(h.r, ps)), g.literal("sl")})
 			}
 			gr = append(gr[:k:k], append(extra, gr[k:]...)...)
 		}
 		skel, pats := g.rdfaChoices(gr)
+		for _, k := range g.hist {
+			h.rep.Count(k)
+		}
 		line := "html.rdfaw " + vh.XS(g.base) + " " + graphWire(gr) + " " + skel + " " + strings.Join(pats, " ")
 		cases = append(cases, rdfaCase{g.base, gr, line})
 		lines = append(lines, line)
@@ -571,6 +580,9 @@ func (h *harness) rdfaWriter(n int) {
 			mod := []int{6, 7, 3, 1}[min(take-int(voc[0]-'0'), 3)]
 			h.rep.Count(fmt.Sprintf("rdfa-writer:pattern take=%d voc=%s shape=%d validated=%c", take, voc, shape%mod, flags[k]))
 		}
+		for _, k := range scopeStats("rdfa-writer(written)", mo.doc) {
+			h.rep.Count(k)
+		}
 		pdoc, loc := h.present(mo.doc, c.base)
 		text := h.serialise("rdfa-writer", loc, pdoc)
 		if text == "" {
@@ -593,7 +605,12 @@ func (h *harness) rdfaSoup(n int) {
 	var lines []string
 	for i := 0; i < n; i++ {
 		base := vh.Pick(h.r, bases)
-		doc, loc := h.present((&soup{r: h.r, base: base}).rdfaDoc(), base)
+		sdoc := (&soup{r: h.r, base: base}).rdfaDoc()
+		h.maybeDecorate("rdfa-soup", sdoc)
+		for _, k := range scopeStats("rdfa-soup", sdoc) {
+			h.rep.Count(k)
+		}
+		doc, loc := h.present(sdoc, base)
 		line := "html.rdfa " + vh.XS(loc) + " " + doc.Wire()
 		cases = append(cases, sc{base, loc, doc, line})
 		lines = append(lines, line)
@@ -670,6 +687,9 @@ func (h *harness) mdWriter(n int) {
 			// the writer reports that it could not express the graph (blank-node objects and no valid candidate)
 			continue
 		}
+		if nestedTargets(mo.doc) > 0 {
+			h.rep.Count("md-writer:itemref target below an element with an id")
+		}
 		pdoc, loc := h.present(mo.doc, c.base)
 		text := h.serialise("md-writer", loc, pdoc)
 		if text == "" {
@@ -692,7 +712,9 @@ func (h *harness) mdSoup(n int) {
 	var lines []string
 	for i := 0; i < n; i++ {
 		base := vh.Pick(h.r, basesNoFragment)
-		doc, loc := h.present((&soup{r: h.r, base: base}).mdDoc(), base)
+		sdoc := (&soup{r: h.r, base: base}).mdDoc()
+		h.maybeDecorate("md-soup", sdoc)
+		doc, loc := h.present(sdoc, base)
 		line := "html.md " + vh.XS(loc) + " " + doc.Wire()
 		cases = append(cases, sc{base, loc, doc, line})
 		lines = append(lines, line)
@@ -853,6 +875,7 @@ func (h *harness) jsonldFamily(n int) {
 			}
 		}
 		doc := E("html", nil, E("head", nil, head...), E("body", nil, body...))
+		h.maybeDecorate("jsonld", doc)
 		line := "html.scripts " + doc.Wire()
 		cases = append(cases, jc{g.base, gr, doc, line})
 		lines = append(lines, line)
@@ -988,6 +1011,7 @@ func (h *harness) combined(n int) {
 			kids = append(kids, rg...)
 		}
 		doc := E("html", r1.doc.Attrs, E("head", nil), E("body", body.Attrs, kids...))
+		h.maybeDecorate("combined", doc)
 		doc, loc := h.present(doc, c.base)
 		text := h.serialise("combined", loc, doc)
 		if text == "" {
@@ -1100,6 +1124,18 @@ func main() {
 	if *only != "" {
 		for _, f := range strings.Split(*only, ",") {
 			h.fam[f] = true
+		}
+	}
+	if !*nomodel {
+		// the generator's special @vocab value is the decoder's host default vocabulary (T2 fact, regenerated by ./check)
+		ans, err := h.drv.Run([]string{"html.hostvocab"})
+		want := "ok:" + vh.XS(hostVocab)
+		if err != nil {
+			fmt.Fprintln(os.Stderr, err)
+			os.Exit(2)
+		}
+		if len(ans) != 1 || ans[0] != want {
+			rep.Add(vh.Case{Kind: "disagreement", Op: "html.hostvocab", Detail: "the generator constant hostVocab is not htmlrdfa's HostDefaultVocabulary (Gen.HtmlFacts.hostDefaultVocabulary)", Go: want, Model: fmt.Sprint(ans)})
 		}
 	}
 	if *replay != "" {
